@@ -9,7 +9,7 @@ notes = {
     'S-C12-r3a1': ' (release configuration only)',
     'S-C12-r2b1': ' - advisory PROTOCOL-NOTE by decision (the sink error is still returned)',
     'S-C13-r5a2': ' - out of reach (needs a non-human-readable serde format)',
-    'S-C12-r5b2': ' - out of reach in the quick tier (needs ~10^5 versions on one thread)',
+    'S-C12-r5b2': ' (long-history pass: ~10^5 versions on one thread; seed dependent at quick size)',
     'S-C12-r5b4': ' - out of reach (thread-exit destructor)',
     'S-C13-r5a1': ' (statistically: a race, seen by the parallel workers; not replayable)',
     'S-C12-r5b1': ' (statistically: a race, seen by the parallel workers; not replayable)',
